@@ -8,3 +8,8 @@ add("C03", "exploration",
     "Held on the executions explored: for each of the 7 server configurations every valid request and the full structural mutation lattice (params / each parameter / envelope members removed, retyped to every JSON type, duplicated; notifications; unsolicited responses; unparsable bodies; HTTP-level faults) got a well-formed frame of the prescribed kind with the request's id and the error code of its fault class; no empty or successful 2xx for unserved input.",
     "Trusted base: lib/wire validators and lib/gen reference classifier (hand-written from MCP 2025-03-26; the official schema file is not in the sandbox). Where the statement fixes no code both -32601/-32602 are accepted.",
     "DESIGN.md section 4 C03")
+add("C19", "exploration",
+    "runtime monitoring: recording reference server + recording request handler + recording before-request function, joined one-to-one per HTTP request; all 32 option combinations x both HTTP clients x every request kind; before-request veto at every position",
+    "Held on the executions explored: every HTTP request observed at the recording server (25 request kinds incl. GET stream, DELETE, answers to server-issued requests, legacy connect) carried the configured headers, session id and path, passed the configured handler and the before-request function exactly once with the right context token; a vetoed request never reached the server and its operation failed with that error.",
+    "Trusted: the hand-written reference server and the join of the three logs. There is no public option for a custom http.Client; the recording handler substitutes its own client.",
+    "DESIGN.md section 4 C19")
